@@ -70,6 +70,8 @@ Inductive cstmt :=
 | CAsk              (* a statement into another variable / a call of a function that may issue a statement: needs a connection *)
 | CCallL            (* ch, err := f(..), f may issue a statement and returns a channel: needs a connection; the goroutine feeding ch holds it *)
 | CHand             (* go func(){ .. rows .. }(): the result set goes to a goroutine *)
+| CGiveUp           (* the function is about to return a non-nil error: the request is over, net/http cancels its context and
+                       database/sql takes the connection back (Rows.awaitDone) -- the callers are assumed not to go on *)
 | COther            (* anything else (defer rows.Close() included: it acts when the function is left) *)
 | CReturn
 | CBreak
@@ -107,6 +109,7 @@ Inductive cexec : cstmt -> cst -> coutcome -> cst -> Prop :=
 | CECallLRefused : cexec CCallL Free CONormal Free
 | CECallLWait : forall s, is_free s = false -> cexec CCallL s COWait s
 | CEHand : forall s, cexec CHand s CONormal (after_hand s)
+| CEGiveUp : forall s, cexec CGiveUp s CONormal Free
 | CEOther : forall s, cexec COther s CONormal s
 | CEReturn : forall s, cexec CReturn s COReturn s
 | CEBreak : forall s, cexec CBreak s COBreak s
@@ -153,6 +156,7 @@ Fixpoint cpost (s : cstmt) (X : list cst) : cres :=
   | CAsk => mkCR X [] [] [] (some_not_free X)
   | CCallL => mkCR (match X with [] => [] | _ => [Lent; Free] end) [] [] [] (some_not_free X)
   | CHand => mkCR (map after_hand X) [] [] [] false
+  | CGiveUp => mkCR (map (fun _ => Free) X) [] [] [] false
   | CReturn => mkCR [] [] [] X false
   | CBreak => mkCR [] X [] [] false
   | CContinue => mkCR [] [] X [] false
@@ -172,12 +176,46 @@ Definition cbody_ok (body : cstmt) : bool :=
   let r := cpost body [Free] in
   negb (cr_bad r) && match cr_b r, cr_c r with [], [] => true | _, _ => false end.
 
+(* ... and what the variable may still hold when the body is left (return / falling off the end) -- the caller does not see
+   it: nothing; an open result set only if a `defer <var>.Close()` is registered (held_ok); a lent one only if the
+   function returns a channel, so that the call is a lending call in its callers' flows (lent_ok) *)
+Definition exit_state_ok (held_ok lent_ok : bool) (s : cst) : bool :=
+  match s with Free => true | Held => held_ok | Lent => lent_ok end.
+Definition cexit_ok (held_ok lent_ok : bool) (body : cstmt) : bool :=
+  let r := cpost body [Free] in
+  forallb (exit_state_ok held_ok lent_ok) (cr_n r) && forallb (exit_state_ok held_ok lent_ok) (cr_r r).
+
 (* ------------------------------------------------------------------ generated inventory *)
 Inductive ckind := CKRows | CKChan.
 Record cflow := { cf_file : string; cf_func : string; cf_unit : nat (* 0 = the declaration, n = its n-th function literal *);
-                  cf_var : string; cf_kind : ckind; cf_body : cstmt }.
+                  cf_var : string; cf_kind : ckind;
+                  cf_deferred_close : bool (* the unit registers `defer <var>.Close()` *);
+                  cf_returns_chan : bool (* the unit's function returns a channel *);
+                  cf_body : cstmt }.
 
-Definition cflow_ok (f : cflow) : bool := cbody_ok (cf_body f).
+(* bodies that can be left with the variable still holding a connection its caller does not know about, reviewed: each is a
+   return that ENDS the request (the handler returns, net/http cancels the context, database/sql takes the connection back):
+   - Trace leaves its loop only if json.Marshal of a span fails (handler-loop allow-list of round 1);
+   - TagsV2 / ValuesV2: `if .. { cRes, err = A() } else { cRes, err = B() }; if err != nil { return }` -- the error check is
+     not next to the call, so the analysis cannot tell that the error branch runs only when nothing was lent;
+   - CLokiQuerier.Select returns a SeriesSet carrying the Scan error (no `error` result): the engine ends the query;
+   - the tail goroutine returns at a failed tick after onErr (the session ends: TailSession.v). *)
+Definition exit_reviewed : list (string * string * nat * string) := [
+  ("controller/tempoController.go", "(*TempoController).Trace", 0, "res");
+  ("controller/tempoController.go", "(*TempoController).TagsV2", 0, "cRes");
+  ("controller/tempoController.go", "(*TempoController).ValuesV2", 0, "cRes");
+  ("service/promQueryable.go", "(*CLokiQuerier).Select", 0, "rows");
+  ("service/queryRangeService.go", "(*QueryRangeService).Tail", 1, "out")
+]%string%nat.
+Definition cf_is (f : cflow) (a : string * string * nat * string) : bool :=
+  let '(fl, fn, u, v) := a in String.eqb (cf_file f) fl && String.eqb (cf_func f) fn && Nat.eqb (cf_unit f) u && String.eqb (cf_var f) v.
+Definition exit_is_reviewed (f : cflow) : bool := existsb (cf_is f) exit_reviewed.
+
+Definition cflow_ok (f : cflow) : bool :=
+  cbody_ok (cf_body f) && (exit_is_reviewed f || cexit_ok (cf_deferred_close f) (cf_returns_chan f) (cf_body f)).
+(* a reviewed entry must name a flow that exists and does fail the exit check *)
+Definition stale_exit_reviews (fs : list cflow) : list (string * string * nat * string) :=
+  filter (fun a => negb (existsb (fun f => cf_is f a && negb (cexit_ok (cf_deferred_close f) (cf_returns_chan f) (cf_body f))) fs)) exit_reviewed.
 Definition cflows_ok (fs : list cflow) : bool := forallb cflow_ok fs.
 Definition failing_cflows (fs : list cflow) : list (string * string * nat * string) :=
   map (fun f => (cf_file f, cf_func f, cf_unit f, cf_var f)) (filter (fun f => negb (cflow_ok f)) fs).
@@ -212,4 +250,5 @@ Definition unaccounted_lends (ls : list (string * string)) : list (string * stri
 
 Definition conn_inventory_ok (fs : list cflow) (qs : list qsite) (ls : list (string * string)) : bool :=
   cflows_ok fs && match unaccounted_qsites qs with [] => true | _ => false end &&
-  Nat.eqb (total_cacq fs) (bound_sites qs) && match unaccounted_lends ls with [] => true | _ => false end.
+  Nat.eqb (total_cacq fs) (bound_sites qs) && match unaccounted_lends ls with [] => true | _ => false end &&
+  match stale_exit_reviews fs with [] => true | _ => false end.
